@@ -9,12 +9,15 @@ ufunc("ITEMS", ["U"], "SEQ")                     # content of an iterable value
 ufunc("MAPQOPT", ["U", "SEQ"], "SEQ")
 
 assumption("A-READER", "iterate_shard of the three reader classes is a function of (class, dataset structure, path) only: it returns the examples decodable from the file (library code: numpy / flatbuffers / TensorFlow; audited by the C01 round-trip harness)")
-axiom("forall(lambda k, ds, x: APP(RD(k, ds), x) == ITERV(k, ds, x), k='U', x='U')")
+axiom("forall(lambda k, ds, x: APP(RD(k, ds), x) == ITERV(k, ds, x), k='U', x='U', pats=['APP(RD(k, ds), x)'])")
+def _meth_axiom(cls_, meth, kind):
+    lhs = "APP(METHV(%r, %r, ds, pr), x)" % (cls_, meth)
+    axiom("forall(lambda ds, pr, x: %s == ITERV(%r, ds, x), pr='U', x='U', pats=[%r])" % (lhs, kind, lhs))
 for _cls, _kind in [("IterateShardNP", "npz"), ("IterateShardFlatBuffer", "fb"), ("IterateShardTFRec", "tfrec")]:
-    axiom("forall(lambda ds, pr, x: APP(METHV(%r, 'iterate_shard', ds, pr), x) == ITERV(%r, ds, x), pr='U', x='U')" % (_cls, _kind))
+    _meth_axiom(_cls, "iterate_shard", _kind)
     # from the contract of process_and_list below
-    axiom("forall(lambda ds, pr: METHV(%r, 'process_and_list', ds, pr) == PALF(%r, ds, pr), pr='U')" % (_cls, _kind))
-axiom("forall(lambda f, x: APP(FOI(f), x) == ite_u(is_none(f), x, APP(f, x)), f='U', x='U')")
+    axiom("forall(lambda ds, pr: METHV(%r, 'process_and_list', ds, pr) == PALF(%r, ds, pr), pr='U', pats=[%r])" % (_cls, _kind, "METHV(%r, 'process_and_list', ds, pr)" % _cls))
+axiom("forall(lambda f, x: APP(FOI(f), x) == ite_u(is_none(f), x, APP(f, x)), f='U', x='U', pats=['APP(FOI(f), x)'])")
 
 MU = "sedpack/io/utils.py"
 contract(MU, "func_or_identity", props=["C02"], params={"f": "optfunc"}, returns="func", modifies=[],
@@ -49,7 +52,7 @@ for _mod, _cls, _kind in [("sedpack/io/npz/iterate_npz.py", "IterateShardNP", "n
 # flat-map / map fusion: flattening process_and_list results = mapping
 # process_record over the flattened shard contents (reading of the
 # process_and_list contract above: ITEMS(PALF(k,ds,pr)(x)) = map(FOI(pr), ITEMS(ITERV(k,ds,x))))
-axiom("forall(lambda k, ds, pr, s: FLATS(MAPS(PALF(k, ds, pr), s)) == ite_stream(pr != None_U(), MAPS(pr, FLATS(MAPS(RD(k, ds), s))), FLATS(MAPS(RD(k, ds), s))), k='U', pr='U', s='STREAM')")
-axiom("forall(lambda k, ds, pr, m: FLATMS(MAPMS(PALF(k, ds, pr), m)) == ite_ms(pr != None_U(), MAPMS(pr, FLATMS(MAPMS(RD(k, ds), m))), FLATMS(MAPMS(RD(k, ds), m))), k='U', pr='U', m='MS')")
+axiom("forall(lambda k, ds, pr, s: FLATS(MAPS(PALF(k, ds, pr), s)) == ite_stream(pr != None_U(), MAPS(pr, FLATS(MAPS(RD(k, ds), s))), FLATS(MAPS(RD(k, ds), s))), k='U', pr='U', s='STREAM', pats=['MAPS(PALF(k, ds, pr), s)'])")
+axiom("forall(lambda k, ds, pr, m: FLATMS(MAPMS(PALF(k, ds, pr), m)) == ite_ms(pr != None_U(), MAPMS(pr, FLATMS(MAPMS(RD(k, ds), m))), FLATMS(MAPMS(RD(k, ds), m))), k='U', pr='U', m='MS', pats=['MAPMS(PALF(k, ds, pr), m)'])")
 for _cls, _kind in [("IterateShardNP", "npz"), ("IterateShardFlatBuffer", "fb")]:
-    axiom("forall(lambda ds, pr, x: APP(METHV(%r, 'iterate_shard_async', ds, pr), x) == ITERV(%r, ds, x), pr='U', x='U')" % (_cls, _kind))
+    _meth_axiom(_cls, "iterate_shard_async", _kind)
